@@ -214,3 +214,38 @@ def gen_shared_payload(rng):
     e = rng.choice(["little", "big"])
     head = "%s_endian_packets\n" % e
     return head + group + "".join(with_g[k] for k in order), head + "".join(inl[k] for k in order)
+
+
+def gen_distinct_users(rng):
+    """Several declarations that each inline a DIFFERENT group, the groups having fields of different widths at the same
+    positions, one of them reached through another group; groups declared before, between and after their users.
+    Whatever the compiler keys by "the n-th inlined field" must not be shared between declarations.
+    Returns (grouped text, inlined text)."""
+    splits = [[3, 13], [12, 4], [8, 24], [5, 3], [16, 8, 8], [1, 7, 8], [4, 4, 16], [24, 8], [2, 6]]
+    rng.shuffle(splits)
+    n = rng.randint(2, 4)
+    groups, users, inl = [], [], []
+    names = ["a", "b", "c"]
+    for i in range(n):
+        ws = splits[i]
+        fs = ["%s: %d" % (names[k], w) for k, w in enumerate(ws)]
+        groups.append("group Gd%d {\n  %s\n}\n" % (i, ",\n  ".join(fs)))
+        extra = rng.choice([[], ["t%d: 8" % i], ["u%d: 16" % i, "v%d: 8[]" % i]])
+        users.append("packet Us%d {\n  %s\n}\n" % (i, ",\n  ".join(["Gd%d" % i] + extra)))
+        inl.append("packet Us%d {\n  %s\n}\n" % (i, ",\n  ".join(fs + extra)))
+    # one user behind another group
+    j = rng.randrange(n)
+    fs = ["%s: %d" % (names[k], w) for k, w in enumerate(splits[j])]
+    groups.append("group Outer {\n  h: 8,\n  Gd%d,\n  k: 8\n}\n" % j)
+    users.append("struct Nest {\n  Outer\n}\n")
+    inl.append("struct Nest {\n  %s\n}\n" % ",\n  ".join(["h: 8"] + fs + ["k: 8"]))
+    order = list(range(len(users)))
+    rng.shuffle(order)
+    e = rng.choice(["little", "big"])
+    head = "%s_endian_packets\n" % e
+    # groups before, between and after their users
+    g = list(groups)
+    rng.shuffle(g)
+    cut = rng.randint(0, len(g))
+    grouped = head + "".join(g[:cut]) + "".join(users[k] for k in order[:1]) + "".join(g[cut:]) + "".join(users[k] for k in order[1:])
+    return grouped, head + "".join(inl[k] for k in order)
